@@ -380,6 +380,7 @@ class ProgGen:
 
     def assign_builtin(self, name, width, text):
         self.stmts.append("%s = %s;" % (name, text))
+        self.builtin_inputs = getattr(self, "builtin_inputs", []) + [(name, width)]
 
     def build(self):
         rng = self.rng
@@ -433,7 +434,7 @@ class ProgGen:
             # now and then a bank without any register (legal: it only has its control signals)
             for j in range(0 if rng.random() < 0.12 else rng.randint(1, 4)):
                 w = rng.choice(WIDTHS)
-                rname = ("s%d" if shared else "r%d") % j if rng.random() < 0.7 else ("sreg_%s%d" if shared else "reg_%s%d") % ("y" * rng.randint(1, 30), j)
+                rname = ("s%d" if shared else "r%d") % j if rng.random() < 0.7 else ("sreg_%s%d" if shared else "reg_%s%d") % ("y" * (rng.randint(1, 30) if rng.random() < 0.85 else rng.randint(40, 75)), j)
                 d = rng.getrandbits(min(w, 20))
                 dt = str(d) if rng.random() < 0.6 else "0x%x" % d
                 if rng.random() < 0.2 and w < 127:
@@ -510,6 +511,15 @@ class ProgGen:
             self.stmts.append("Stat = [ (P_cyc)[0..2] == %d : %s; 1 : STAT_AOK; ];" % (rng.randint(0, 3), rng.choice(["STAT_HLT", "STAT_INS", "STAT_ADR", "STAT_BUB", "STAT_PIP", "7"])))
         else:
             self.stmts.append("Stat = STAT_AOK;")
+        # the inputs of the built-in components are wires like any other: now and then further wires read them
+        # (also the inputs of the output-less components: Stat, the write ports), in this very cycle
+        if rng.random() < 0.35:
+            readable = list(getattr(self, "builtin_inputs", [])) + [("Stat", 3), ("pc", 64)]
+            for j in range(rng.randint(1, 3)):
+                n_, w_ = rng.choice(readable)
+                form = rng.choice(["%s", "(%s ^ %s)", "~%s", "(%s + 1)", "[ %s == 0 : 1; 1 : %s ]"])
+                self.stmts.append("wire obs%d : %d;" % (j, w_))
+                self.stmts.append("obs%d = %s;" % (j, form.replace("%s", n_)))
         body = list(self.stmts)
         rng.shuffle(body)
         return "\n".join(body) + "\n"
